@@ -1018,15 +1018,25 @@ def _vdot(I, a, b):
 
 
 @model("numpy.cross")
-def _cross(I, a, b):
+def _cross(I, a, b, **kw):
     a, b = as_arr(a), as_arr(b)
-    if a.shape != (3,) or b.shape != (3,):
+    if kw and any(v not in (-1, None) for v in kw.values()):
+        raise Unsupported("cross with axis arguments")
+    if not a.shape or not b.shape or a.shape[-1] != 3 or b.shape[-1] != 3:
         raise Unsupported("cross of non-3-vectors")
-    x, y = list(a.data), list(b.data)
+    kind = "f" if "f" in (a.kind, b.kind) else "i"
     m = lambda p, q: num_binop("*", p, q)
     s = lambda p, q: num_binop("-", p, q)
-    return NDArr(obj_array([s(m(x[1], y[2]), m(x[2], y[1])), s(m(x[2], y[0]), m(x[0], y[2])), s(m(x[0], y[1]), m(x[1], y[0]))]),
-                 "f" if "f" in (a.kind, b.kind) else "i")
+    one = lambda x, y: [s(m(x[1], y[2]), m(x[2], y[1])), s(m(x[2], y[0]), m(x[0], y[2])), s(m(x[0], y[1]), m(x[1], y[0]))]
+    if a.shape == (3,) and b.shape == (3,):
+        return NDArr(obj_array(one(list(a.data), list(b.data))), kind)
+    A, B = np.broadcast_arrays(a.data, b.data)          # rows along the last axis (numpy's default axisa = axisb = axisc = -1)
+    out = np.empty(A.shape, dtype=object)
+    for idx in np.ndindex(*A.shape[:-1]):
+        r = one(list(A[idx]), list(B[idx]))
+        for k in range(3):
+            out[idx + (k,)] = r[k]
+    return NDArr(out, kind)
 
 
 def det3(m):
